@@ -1,13 +1,15 @@
 #!/usr/bin/env python3
 import json, sys
 pid = sys.argv[1]
+suf = sys.argv[2] if len(sys.argv) > 2 else ""
+avoid = sys.argv[3] if len(sys.argv) > 3 else ""
 rec = None
 for l in open('/verif/properties.jsonl'):
     p = json.loads(l)
     if p['id'] == pid:
         rec = p
-wt = f"/tmp/seed-{pid}"
-out = f"/tmp/seed-{pid}-out"
+wt = f"/tmp/seed-{pid}{suf}"
+out = f"/tmp/seed-{pid}{suf}-out"
 print(f"""You are helping to evaluate a verification effort for the Rust crate salsa (incremental computation framework), pinned at the commit checked out in /repo. Your job: produce ONE realistic, subtle code change to salsa that BREAKS the semantic property below, while the crate still compiles and its existing test suite still passes. This is authorized defect-seeding (mutation testing) in a sealed sandbox; nothing you write is ever merged.
 
 PROPERTY {pid} — {rec['title']}
@@ -25,13 +27,15 @@ Requirements for the change:
  3. The crate must still compile and the existing suite must still pass with the change. Verify with:
       cd {wt} && cargo nextest run --workspace --no-fail-fast --tool-config-file pb:/w/lib/nextest.toml --profile pb --test-threads 8 --offline
     (fallback if nextest misbehaves: cargo test --workspace --no-fail-fast --offline). All ~280 tests must pass. If some test fails with your change, pick a different/more subtle change.
- 4. Write a demonstration: a new integration test file {wt}/tests/seed_{pid.lower()}_demo.rs (plain salsa API, like the other files in tests/; `#![cfg(feature = "inventory")]` at the top like they do) that FAILS with your change and PASSES without it. Check both: run it with the change applied (`cargo test --offline --test seed_{pid.lower()}_demo`), then `git stash` the src change (keep the test file), run again to see it pass, then `git stash pop`.
+ 4. Write a demonstration: a new integration test file {wt}/tests/seed_{pid.lower()}_demo.rs (plain salsa API, like the other files in tests/; `#![cfg(feature = "inventory")]` at the top like they do) that FAILS with your change and PASSES without it. Check both: run it with the change applied (`cargo test --offline --test seed_{pid.lower()}_demo`), then save the src change with `git diff -- src components > {out}/patch.diff`, undo it with `git apply -R {out}/patch.diff` (keep the test file), run again to see it pass, then re-apply with `git apply {out}/patch.diff`. Do NOT use `git stash` (the stash is shared between worktrees).
     If the demonstration needs threads, use std threads with salsa's normal (non-shuttle) build and make it deterministic with the signalling style used in tests/parallel (or loop over many iterations if a race is needed, and say so).
  5. Save the results:
-      mkdir -p {out}
+      mkdir -p {out}   (do this first)
       git -C {wt} diff -- src components > {out}/patch.diff          (ONLY the salsa source change, not the test)
       cp {wt}/tests/seed_{pid.lower()}_demo.rs {out}/demo.rs
       write {out}/notes.md: which property it breaks and why, what exactly is needed for it to manifest (sequence / interleaving / inputs), the commands you ran and their outcomes (suite pass count with the change, demo fails with / passes without).
  6. Leave the worktree in place (do not remove it); do not commit anything.
+
+{('Earlier rounds already produced changes of these kinds for this property; choose a DIFFERENT mechanism and different functions: ' + avoid) if avoid else ''}
 
 Be economical: build once, iterate on small edits. If after a few attempts you cannot find a change that keeps the suite green, report the best attempt and say exactly which tests fail. Final answer: a short summary (file and lines changed, what is needed to trigger it, test results).""")
